@@ -38,10 +38,11 @@ def mutate_line(rng, l):
         return l[:i] + rng.choice('abz19 ') + l[i + 1:]
     if r < 0.45:
         return re.sub(r'\d+', lambda m: str(rng.randint(0, 9999)), l) if re.search(r'\d', l) else l + '1'
+    blank = rng.choice([' ', ' ', ' ', '\t', '\u00a0', '\u3000', '\u2003', '\x0c', '\x1f'])   # what str.strip() strips
     if r < 0.6:
-        return ' ' * rng.randint(1, 2) + l
+        return blank * rng.randint(1, 2) + l
     if r < 0.75:
-        return l + ' ' * rng.randint(1, 2)
+        return l + blank * rng.randint(1, 2)
     if r < 0.85:
         return l.upper() if l.upper() != l else l.lower()
     return rng.choice(LINE_POOL)
